@@ -387,6 +387,58 @@ func driveC09(args []string) error {
 			return err
 		}
 	}
+	// suggested palettes no encoder writes: in the 1-byte format, entries that are references (0x80.. customPalette[i],
+	// 0xc0.. CREG[i]) to earlier non-black entries, to themselves, to later entries; other formats with random bytes
+	paldec := func(id string, format int, entries [][]byte) {
+		body := []byte{0x02, byte(format<<6 | (len(entries) - 1))}
+		for _, e := range entries {
+			body = append(body, e...)
+		}
+		ln := []byte{byte(len(body) << 1)}
+		if len(body) >= 128 {
+			v := len(body)<<2 | 1
+			ln = []byte{byte(v), byte(v >> 8)}
+		}
+		b := append(append(append([]byte{}, magic00[:4]...), 0x02), ln...)
+		b = append(b, body...)
+		var rec Recorder
+		ev := colEv{Ev: "paldec", Path: id, B: bytesJ(b)}
+		if err := decode.Decode(&rec, b); err == nil && len(rec.Calls) == 1 {
+			ev.OK = 1
+			ev.Got = rec.Calls[0].Pal
+		}
+		emit(ev)
+	}
+	for k := 0; k < 200; k++ {
+		n := 2 + rng.Intn(10)
+		var es [][]byte
+		for i := 0; i < n; i++ {
+			switch rng.Intn(4) {
+			case 0:
+				es = append(es, []byte{byte(1 + rng.Intn(124))}) // a direct non-black colour
+			case 1:
+				es = append(es, []byte{byte(0x80 | rng.Intn(n))}) // customPalette[j], j anywhere in the list
+			case 2:
+				es = append(es, []byte{byte(0xc0 | rng.Intn(n))}) // CREG[j]
+			default:
+				es = append(es, []byte{byte(rng.Intn(256))})
+			}
+		}
+		paldec(fmt.Sprintf("paldec/refs/%d", k), 0, es)
+	}
+	for k := 0; k < 100; k++ {
+		format := 1 + rng.Intn(3)
+		n := 1 + rng.Intn(8)
+		var es [][]byte
+		for i := 0; i < n; i++ {
+			e := make([]byte, format+1)
+			for j := range e {
+				e[j] = byte(rng.Intn(256))
+			}
+			es = append(es, e)
+		}
+		paldec(fmt.Sprintf("paldec/random/%d", k), format, es)
+	}
 	// uniform palettes (64 equal entries): the zero value of the array type (all transparent), the default, and others
 	for i, u := range []color.RGBA{{}, black, {0xff, 0xff, 0xff, 0xff}, {0x80, 0x80, 0x80, 0x80}, {0x10, 0x20, 0x30, 0x40}, {0x33, 0x88, 0, 0xff}, {1, 2, 3, 0xff}, {0, 0, 0, 1}} {
 		var p [64]color.RGBA
